@@ -14,6 +14,7 @@ def run(rep):
     rep.guard(u1, rep, w)
     rep.guard(u2, rep, w)
     rep.guard(u3, rep, w)
+    rep.guard(u11, rep, w)
     import c10
     rep.guard(c10.v5, rep, w, 'U4')      # index arithmetic on program-chosen integers cannot overflow (-inf / isize::MIN boundary)
     rep.guard(c10.v6, rep, w, 'U7')      # String.find & co: a difference of two lengths is taken only after comparing them
@@ -29,6 +30,10 @@ def run(rep):
     import c01, c01_flow
     rep.guard(c01_flow.r5b, rep, w, c01.may_gc(w))     # slicing copies operands off the stack: they stay rooted until the result exists
     rep.guard(c01.r2, rep, w)     # a remembered slice keyed by the addresses of its operands is only right while those objects live: the interpreter holds no unrooted handle
+    import c15
+    rep.guard(c15.n9, rep, w, 'C13')    # a string function is a function of its arguments: nothing of an earlier (failed) call is left in a shared buffer
+    import c11
+    rep.guard(c11.i1, rep, w)    # ... and what it returns is an interned string made by the one constructor (a second way of making strings hashes differently: equal results are unequal)
 
 
 def u1(rep, w):
@@ -468,3 +473,27 @@ def u9(rep, w, prop='C13'):
                     'so an escape such as "\\x+1" is taken for a valid one' % name.rsplit('::', 1)[-1], f.loc(t.get('sp')))
     if n == 0:
         r.ok('no integer parse of program text in the crate (escapes are decoded digit by digit)')
+
+
+def u11(rep, w):
+    """"not an integer" comes before "out of range": an index that is not integral (1.5, NaN) is a ValueError whatever its size, so in a function
+    that classifies an index itself, the IndexError is raised only behind the integrality test (validate_integer) - never decided on the raw
+    number first."""
+    r = rep.rule('U11', 'a function that validates an index raises IndexError only after validate_integer accepted the operand', floor=1)
+    n = 0
+    for f in sorted(w.yarel.fns.values(), key=lambda x: x.path):
+        vi = [bi for bi, t in f.calls() if callee_name(t) == 'yarel::utils::validate_integer']
+        if not vi:
+            continue
+        ie = [bi for bi in f.normal_blocks() for s_ in f.blocks[bi]['s']
+              if s_.get('r', {}).get('rv') == 'agg' and (s_['r'].get('adt') or '').endswith('ErrorKind') and s_['r'].get('v') == 'IndexError']
+        if not ie:
+            continue
+        n += 1
+        dom = f.dominators()
+        bad = [b for b in ie if not any(v in dom.get(b, ()) for v in vi)]
+        r.check(not bad, '%s / IndexError only behind validate_integer' % f.path.replace('yarel::', ''),
+                '%s can raise IndexError for an operand that validate_integer has not seen yet: a fractional or NaN index that is also out of range is reported as IndexError '
+                'instead of ValueError' % f.path, f.loc())
+    if n == 0:
+        raise Broken('C13', 'anchor', 'no function both validates an index and raises IndexError')
